@@ -376,6 +376,7 @@ class Interp:
         if fname == 'f64::<impl f64>::ceil': return z3.fpRoundToIntegral(z3.RTP(), a[0])
         if fname == 'core::f64::<impl f64>::max': return z3.If(z3.fpIsNaN(a[0]), a[1], z3.If(z3.fpIsNaN(a[1]), a[0], z3.If(z3.fpGEQ(a[0], a[1]), a[0], a[1])))
         if ' as Iterator>::map::<' in fname or ' as Iterator>::cloned::<' in fname: return a[0]
+        if fname.startswith('Arguments::') or fname.startswith('core::fmt::') or fname.startswith('std::fmt::'): return Opaque('fmt')
         raise Exception('no model for call ' + fname)
 
     def run_closure(self, clo, env, item):
@@ -525,3 +526,14 @@ class Interp:
         assert st.endswith(';'), st
         lhs, rhs = st[:-1].split(' = ', 1)
         self.store(fr, self.parse_place(lhs), self.rvalue(fr, rhs))
+
+
+def solve(assertions, timeout_ms=600000):
+    """One non-incremental query with a fresh solver (keeps z3 on its bit-blasting tactic path;
+    push/pop would switch it to the much slower incremental core). -> (result, model|None)"""
+    s = z3.Solver()
+    s.set('timeout', timeout_ms)
+    for a in assertions:
+        s.add(a)
+    r = s.check()
+    return r, (s.model() if r == z3.sat else None)
